@@ -13,6 +13,7 @@ import (
 	"sync/atomic"
 	"testing"
 	"time"
+	"verif/internal/envwatch"
 
 	"github.com/alicebob/miniredis/v2"
 	clientv3 "go.etcd.io/etcd/client/v3"
@@ -142,7 +143,7 @@ func (w *World) start() {
 	engineCacheOnce.Do(func() { enginefactory.InitEngineCache(context.Background(), w.Cfg, nil) })
 	cal, err := calcium.New(w.Ctx, w.Cfg, w.T)
 	if err != nil {
-		w.T.Fatalf("calcium.New: %v", err)
+		panic(envwatch.HarnessErr{What: "calcium.New", Err: err})
 	}
 	w.Cal = cal
 	if !w.opts.Raw {
@@ -194,7 +195,7 @@ func (w *World) RevokeAllLeases() {
 	defer cancel()
 	resp, err := w.Etcd.Leases(ctx)
 	if err != nil {
-		w.T.Fatalf("list leases: %v", err)
+		panic(envwatch.HarnessErr{What: "list leases", Err: err})
 	}
 	for _, l := range resp.Leases {
 		_, _ = w.Etcd.Revoke(ctx, l.ID)
@@ -206,7 +207,7 @@ func (w *World) WipeEtcd() {
 	ctx, cancel := context.WithTimeout(context.Background(), 10*time.Second)
 	defer cancel()
 	if _, err := w.Etcd.Delete(ctx, "", clientv3.WithPrefix()); err != nil {
-		w.T.Fatalf("wipe etcd: %v", err)
+		panic(envwatch.HarnessErr{What: "wipe etcd", Err: err})
 	}
 }
 
@@ -226,7 +227,7 @@ func (w *World) DumpEtcd() KV {
 	defer cancel()
 	resp, err := w.Etcd.Get(ctx, "", clientv3.WithPrefix())
 	if err != nil {
-		w.T.Fatalf("dump etcd: %v", err)
+		panic(envwatch.HarnessErr{What: "dump etcd", Err: err})
 	}
 	out := KV{}
 	for _, kv := range resp.Kvs {
@@ -258,7 +259,7 @@ func (w *World) RestoreEtcd(kv KV) {
 	for len(ops) > 0 {
 		n := min(len(ops), 100)
 		if _, err := w.Etcd.Txn(ctx).Then(ops[:n]...).Commit(); err != nil {
-			w.T.Fatalf("restore etcd: %v", err)
+			panic(envwatch.HarnessErr{What: "restore etcd", Err: err})
 		}
 		ops = ops[n:]
 	}
@@ -318,14 +319,14 @@ func (w *World) RawNodeRecord(node string) (*NodeRecord, bool) {
 	defer cancel()
 	resp, err := w.Etcd.Get(ctx, "/resource/cpumem/"+node)
 	if err != nil {
-		w.T.Fatalf("read node record: %v", err)
+		panic(envwatch.HarnessErr{What: "read node record", Err: err})
 	}
 	if len(resp.Kvs) == 0 {
 		return nil, false
 	}
 	r := &NodeRecord{}
 	if err := json.Unmarshal(resp.Kvs[0].Value, r); err != nil {
-		w.T.Fatalf("decode node record %s: %v", resp.Kvs[0].Value, err)
+		panic(envwatch.HarnessErr{What: "decode node record " + string(resp.Kvs[0].Value), Err: err})
 	}
 	return r, true
 }
@@ -433,7 +434,7 @@ func (w *World) NodeWorkloads(node string) []*types.Workload {
 	defer cancel()
 	ws, err := w.RawStore.ListNodeWorkloads(ctx, node, nil)
 	if err != nil {
-		w.T.Fatalf("list node workloads %s: %v", node, err)
+		panic(envwatch.HarnessErr{What: "list node workloads " + node, Err: err})
 	}
 	return ws
 }
